@@ -719,7 +719,7 @@ class OBJ:
             6: "round trip: parsing the Newick text written by the object changed the leaves or the clades",
             7: "state: the object is not the tree the history should have produced"}
     lift_q = False       # set by C15.known_witnesses
-    lift_s = False
+    lift_s = False       # only while the witness of the scanner-character class is evaluated
     lift_b = False
 
     @staticmethod
